@@ -929,3 +929,251 @@ def world_oracle_reqs(c, reqs, subs, ast):
     mq = [model_req(text, sh, c["rules"], c["grouping"], c["user_fns"], r, c.get("etype")) for r in reqs]
     sq = [spec_req(eff, sh, ast, c["rules"], subs, c["grouping"], c["user_fns"], r) for r in reqs]
     return mq, sq
+
+
+# ======================================================================================================================
+# Matcher TEXTS of unusual shape (stratum "matcher-text-shapes" of c02.py): stacked negations (!!x, !!!x, ! !x, !(!x)) in
+# the matcher and in rule texts run through eval(); user-registered functions whose NAMES contain the library's own
+# keywords (eval, g, p, r, in, not, and, or); the empty policy under every such matcher.  The expression language here is a
+# small JSON tree with its own renderer and its own evaluator (the meaning of the documented operators, written down
+# directly), so a case carries everything a replay needs.
+#   term   ["r", field] | ["p", field] | ["lit", text]
+#   tree   ["cmp", term, "=="|"!=", term] | ["call", name, [term..]] | ["in", term, [text..]] | ["par", tree]
+#          | ["neg", "!"|"! ", tree] | ["and", sep, [tree..]] | ["or", sep, [tree..]] | ["eval", pfield]
+# A negation is only ever applied to a unit (call, parenthesised expression, eval(..), another negation); an `or` below an
+# `and` is parenthesised.  Rule fields named in ["eval", f] hold a tree over the request only, stored as rendered text.
+TS_RDEF = ["sub", "obj", "act"]
+TS_SUBS = ["alice", "bob", "root", ""]
+TS_OBJS = ["/data/1", "/tmp/1", ""]
+TS_ACTS = ["read", "write", ""]
+# names a user may well give a function; each contains (or is built around) a word the library's text rewriting looks for
+TS_NAMES = ["acl_eval", "retrieval", "re_eval", "doEval", "evaluate", "eval_ok", "gmember", "g_of", "gg", "p_owner", "r_check",
+            "rp", "pr2", "inside", "is_in", "in_", "notify", "not_banned", "android", "and_", "order_ok", "or_", "keyMatch_",
+            "regexMatchx", "allow", "some"]
+
+
+def ts_key_match(k1, k2):
+    """documented keyMatch: the pattern may end in *"""
+    i = k2.find("*")
+    if i == -1:
+        return k1 == k2
+    if len(k1) > i:
+        return k1[:i] == k2[:i]
+    return k1 == k2[:i]
+
+
+def ts_term_text(t, dq):
+    if t[0] == "lit":
+        q = '"' if dq else "'"
+        return q + t[1] + q
+    return f"{t[0]}.{t[1]}"
+
+
+def ts_render(t, dq=True):
+    k = t[0]
+    if k == "cmp":
+        return f"{ts_term_text(t[1], dq)} {t[2]} {ts_term_text(t[3], dq)}"
+    if k == "call":
+        return f"{t[1]}(" + ", ".join(ts_term_text(x, dq) for x in t[2]) + ")"
+    if k == "in":
+        q = '"' if dq else "'"
+        return f"{ts_term_text(t[1], dq)} in (" + ", ".join(q + x + q for x in t[2]) + ")"
+    if k == "par":
+        return "(" + ts_render(t[1], dq) + ")"
+    if k == "neg":
+        return t[1] + ts_render(t[2], dq)
+    if k in ("and", "or"):
+        return t[1].join(ts_render(x, dq) for x in t[2])
+    if k == "eval":
+        return f"eval(p.{t[1]})"
+    raise ValueError(t)
+
+
+def ts_value(t, r, p, rule_trees):
+    """r, p: dicts field -> text; rule_trees: field -> tree for the eval fields of THIS rule"""
+    k = t[0]
+
+    def term(x):
+        return x[1] if x[0] == "lit" else (r if x[0] == "r" else p)[x[1]]
+    if k == "cmp":
+        return (term(t[1]) == term(t[3])) == (t[2] == "==")
+    if k == "call":
+        a = [term(x) for x in t[2]]
+        return ts_key_match(*a) if t[1] == "keyMatch" else a[0] == a[1]       # every user function here is equality
+    if k == "in":
+        return term(t[1]) in t[2]
+    if k == "par":
+        return ts_value(t[1], r, p, rule_trees)
+    if k == "neg":
+        return not ts_value(t[2], r, p, rule_trees)
+    if k == "and":
+        return all(ts_value(x, r, p, rule_trees) for x in t[2])
+    if k == "or":
+        return any(ts_value(x, r, p, rule_trees) for x in t[2])
+    if k == "eval":
+        return ts_value(rule_trees[t[1]], r, p, rule_trees)
+    raise ValueError(t)
+
+
+def ts_has_eval(t):
+    if t[0] == "eval":
+        return True
+    if t[0] in ("par",):
+        return ts_has_eval(t[1])
+    if t[0] == "neg":
+        return ts_has_eval(t[2])
+    if t[0] in ("and", "or"):
+        return any(ts_has_eval(x) for x in t[2])
+    return False
+
+
+def ts_negs(unit, styles):
+    """styles: one of "!", "! ", "!(" per negation, outermost first; "!(" parenthesises what it negates"""
+    t = unit
+    for s_ in reversed(styles):
+        t = ["neg", "!", ["par", t]] if s_ == "!(" else ["neg", s_, t]
+    return t
+
+
+TS_MODEL = """[request_definition]
+r = sub, obj, act
+[policy_definition]
+p = %s
+[policy_effect]
+e = some(where (p.eft == allow))
+[matchers]
+m = %s
+"""
+
+
+def ts_rule_values(pdef, rule):
+    """stored texts of one rule (eval fields rendered with single quotes) and the trees of its eval fields"""
+    vals, trees = [], {}
+    for f, x in zip(pdef, rule):
+        if isinstance(x, (list, tuple)):
+            trees[f] = x
+            vals.append(ts_render(x, dq=False))
+        else:
+            vals.append(x)
+    return vals, trees
+
+
+def ts_judge(case, only=None):
+    """case: dict(pdef, tree, user_fns, phases=[[rule..]..], requests).  ONE enforcer; for every phase the stored rules are
+    removed one by one and the phase's rules added, then every request is asked.  Returns (judged, failures) with
+    failures = [(phase index, request, observed, expected)].  SPEC: allow-override over the rules the matcher tree is true
+    of; with no rule stored the tree is judged once with every p.<field> = '' (not asked when the matcher contains a real
+    eval(): there is no rule text to evaluate)."""
+    pdef, tree = case["pdef"], case["tree"]
+    text = TS_MODEL % (", ".join(pdef), ts_render(tree))
+    fails, n = [], 0
+    try:
+        e = casbin.Enforcer(casbin.Enforcer.new_model(text=text))
+        for name in case["user_fns"]:
+            e.add_function(name, lambda a, b: a == b)
+    except Exception as exc:  # noqa
+        return 1, [(0, None, dict(raised_while_building=type(exc).__name__, message=str(exc)[:160]), "an enforcer")]
+    for pi, rules in enumerate(case["phases"]):
+        for old in [list(x) for x in e.get_policy()]:
+            e.remove_policy(*old)
+        vals = [ts_rule_values(pdef, r) for r in rules]
+        for v, _ in vals:
+            e.add_policy(*v)
+        if not rules and ts_has_eval(tree):
+            continue
+        for q in case["requests"]:
+            if only is not None and (pi, q) != only:
+                continue
+            r = dict(zip(TS_RDEF, q))
+            if rules:
+                want = any(ts_value(tree, r, dict(zip(pdef, v)), tr) for v, tr in vals)
+            else:
+                want = bool(ts_value(tree, r, {f: "" for f in pdef}, {}))
+            n += 1
+            try:
+                got = e.enforce(*q)
+            except Exception as exc:  # noqa
+                got = f"raised {type(exc).__name__}: {str(exc)[:120]}"
+            if got is not want:
+                fails.append((pi, q, got, want))
+    return n, fails
+
+
+def ts_cases(rng, n_random):
+    R_, P_, L_ = (lambda f: ["r", f]), (lambda f: ["p", f]), (lambda s_: ["lit", s_])
+    pdef = ["sub", "obj", "act"]
+    rules = [["alice", "/data/*", "read"], ["bob", "/tmp/*", "write"], ["alice", "/tmp/1", "write"], ["root", "*", "read"]]
+    reqs = [[s_, o, a] for s_ in TS_SUBS for o in TS_OBJS for a in TS_ACTS]
+    plain = [["cmp", R_("sub"), "==", P_("sub")], ["call", "keyMatch", [R_("obj"), P_("obj")]], ["cmp", R_("act"), "==", P_("act")],
+             ["cmp", R_("act"), "!=", P_("act")], ["in", R_("act"), ["read", "write"]], ["call", "eqf", [R_("sub"), P_("sub")]],
+             ["cmp", R_("sub"), "==", L_("root")], ["cmp", R_("obj"), "!=", P_("obj")]]
+    unit = lambda t: t if t[0] == "call" else ["par", t]
+    all_styles = lambda k: [["!"] * k, ["! "] * k, ["!("] * k, [rng.choice(["!", "! ", "!("]) for _ in range(k)]]
+    phases3 = lambda: [[], [list(r) for r in rng.sample(rules, rng.randint(1, 3))], []]
+    out = []
+
+    def mk(part, tree, pd=pdef, fns=("eqf",), phases=None):
+        out.append(dict(stratum="matcher-text-shapes", part=part, pdef=list(pd), tree=tree, matcher=ts_render(tree), user_fns=list(fns),
+                        phases=phases if phases is not None else phases3(), requests=reqs))
+    # (a1) k stacked negations of one unit, first / in the middle / last among other conjuncts, with and without blanks
+    for a in plain:
+        for k in (1, 2, 3, 4):
+            for st in all_styles(k):
+                others = rng.sample([x for x in plain if x is not a], 2)
+                pos = rng.randrange(3)
+                kids = others[:pos] + [ts_negs(unit(a), st)] + others[pos:]
+                mk("stacked negations", ["and", rng.choice([" && ", "&&", " &&"]), kids])
+    # (a2) negated parenthesised combinations
+    for k in (1, 2, 3):
+        for st in all_styles(k)[:3]:
+            a, b, c = rng.sample(plain, 3)
+            op = rng.choice(["and", "or"])
+            inner = [op, " && " if op == "and" else rng.choice([" || ", "||"]), [ts_negs(unit(a), ["!"] * rng.randint(0, 2)), unit(b)]]
+            mk("stacked negations", ["and", " && ", [ts_negs(["par", inner], st), c]])
+            mk("stacked negations", ["or", rng.choice([" || ", "||"]), [ts_negs(["par", inner], st), ["and", "&&", [unit(c), ts_negs(unit(b), st)]]]])
+
+    # (a3) random trees
+    def rnd(d):
+        x = rng.random()
+        if d <= 0 or x < 0.3:
+            a = rng.choice(plain)
+            k = rng.choice([0, 0, 1, 2, 2, 3])
+            return ts_negs(unit(a), [rng.choice(["!", "!", "! ", "!("]) for _ in range(k)]) if k else a
+        if x < 0.65:
+            return ["and", rng.choice([" && ", "&&"]), [y if y[0] != "or" else ["par", y] for y in (rnd(d - 1) for _ in range(rng.randint(2, 3)))]]
+        if x < 0.85:
+            return ["or", rng.choice([" || ", "||"]), [rnd(d - 1) for _ in range(2)]]
+        return ts_negs(["par", rnd(d - 1)], [rng.choice(["!", "! ", "!("]) for _ in range(rng.randint(1, 3))])
+    for _ in range(n_random):
+        mk("stacked negations", rnd(2))
+    # (a4) rule texts run through eval(): the stacked negations are in the RULE
+    epdef = ["sub_rule", "obj", "act"]
+    ratoms = [["cmp", R_("sub"), "==", L_("alice")], ["cmp", R_("sub"), "!=", L_("bob")], ["call", "eqf", [R_("sub"), L_("alice")]],
+              ["call", "keyMatch", [R_("obj"), L_("/data/*")]], ["in", R_("act"), ["read", ""]]]
+    rest = [["call", "keyMatch", [R_("obj"), P_("obj")]], ["cmp", R_("act"), "==", P_("act")]]
+    for head in (["eval", "sub_rule"], ["neg", "!", ["eval", "sub_rule"]], ["neg", "!", ["neg", "!", ["eval", "sub_rule"]]],
+                 ["neg", "! ", ["neg", "!", ["neg", "!", ["eval", "sub_rule"]]]]):
+        for sep in (" && ", "&&"):
+            for _ in range(max(2, n_random // 12)):
+                erules = []
+                for j, (o, a) in enumerate(rng.sample([("/data/*", "read"), ("/tmp/*", "write"), ("/tmp/1", "read"), ("*", "write")], 3)):
+                    k = rng.choice([0, 1, 2, 2, 3, 4])
+                    erules.append([ts_negs(unit(rng.choice(ratoms)), [rng.choice(["!", "!", "! ", "!("]) for _ in range(k)]), o, a])
+                kids = [head] + rest if rng.random() < 0.6 else rest[:1] + [head] + rest[1:]
+                mk("stacked negations in eval() rule texts", ["and", sep, kids], pd=epdef, phases=[erules, erules[:1]])
+    # (b) user functions whose names contain the library's keywords; (c) each under the empty policy, before the first rule
+    #     is added and after the last one was removed
+    for name in TS_NAMES:
+        call = ["call", name, [R_("sub"), P_("sub")]]
+        acl = [call, ["cmp", R_("obj"), "==", P_("obj")], ["cmp", R_("act"), "==", P_("act")]]
+        xr = [["alice", "/data/1", "read"], ["bob", "/tmp/1", "write"]]
+        mk("keyword-like function names", ["or", " || ", [["cmp", R_("sub"), "==", L_("root")], ["par", ["and", " && ", acl]]]],
+           fns=[name], phases=[[], xr, []])
+        mk("keyword-like function names", ["and", "&&", acl[1:2] + [call] + acl[2:]], fns=[name], phases=[[], xr[:1], xr, []])
+        mk("keyword-like function names", ["and", " && ", [ts_negs(call, [rng.choice(["!", "! "]) for _ in range(rng.randint(1, 2))]), acl[1]]],
+           fns=[name], phases=[[], xr, []])
+        # ... beside a real eval() in the matcher, and called from the rule text
+        erules = [[["cmp", R_("sub"), "!=", L_("bob")], "/data/1", "read"], [["call", name, [R_("sub"), L_("bob")]], "/tmp/1", "write"]]
+        mk("keyword-like function names", ["and", " && ", [["eval", "sub_rule"], ["call", name, [R_("obj"), P_("obj")]], ["cmp", R_("act"), "==", P_("act")]]],
+           pd=epdef, fns=[name], phases=[erules, erules[1:]])
+    return out
